@@ -49,6 +49,7 @@ def step (st : St) : List String → St × String
   | ["savepoint", ops, srs] => call st (.savepoint (natList ops) (natList srs))
   | ["opack", op, cp, tag] => call st (.opAck (natOr op) (natOr cp) (natOr tag))
   | ["srack", sr, cp, splits] => call st (.srAck (natOr sr) (natOr cp) (natList splits))
+  | ["redeploy"] => call st .redeploy
   | ["current"] =>
     match st.sys.pub.current with
     | none => (st, "cur none")
